@@ -246,14 +246,24 @@ impl KeyValueStore {
                 state.seq_no += 1;
                 let rollover_seq_no = state.seq_no;
                 let mut wait_guard = self.wait_list.link(());
+                #[cfg(rescrv_blue_verif)]
+                crate::verif::sched(crate::verif::SchedEvent::Linked(wait_guard.index()));
                 while !wait_guard.is_head() {
+                    #[cfg(rescrv_blue_verif)]
+                    crate::verif::sched(crate::verif::SchedEvent::Blocking(true));
                     state = wait_guard.naked_wait(state);
+                    #[cfg(rescrv_blue_verif)]
+                    crate::verif::sched(crate::verif::SchedEvent::Blocking(false));
                 }
                 state.visible_seq_no = std::cmp::max(state.visible_seq_no, rollover_seq_no);
                 drop(wait_guard);
                 self.wait_list.notify_head();
+                #[cfg(rescrv_blue_verif)]
+                crate::verif::sched(crate::verif::SchedEvent::NotifiedHead);
                 (imm, imm_log, imm_path, imm_trigger)
             };
+            #[cfg(rescrv_blue_verif)]
+            crate::verif::sched(crate::verif::SchedEvent::Point("flush:rolled-over"));
             self.poison::<(), SError>(Ok(()))?;
             if Arc::strong_count(&imm_log) != 1 {
                 return Err(logic_error(
@@ -372,6 +382,10 @@ impl KeyValueStore {
                 seq_no,
             )
         };
+        #[cfg(rescrv_blue_verif)]
+        crate::verif::sched(crate::verif::SchedEvent::Linked(wait_guard.index()));
+        #[cfg(rescrv_blue_verif)]
+        crate::verif::sched(crate::verif::SchedEvent::Point("write:sequenced"));
         let mut log_batch = sst::log::WriteBatch::default();
         for entry in batch.entries.iter() {
             log_batch.insert(KeyValueRef::from(entry))?;
@@ -380,14 +394,22 @@ impl KeyValueStore {
         self.poison(memtable.write(&mut batch))?;
         drop(memtable);
         drop(log);
+        #[cfg(rescrv_blue_verif)]
+        crate::verif::sched(crate::verif::SchedEvent::Point("write:inserted"));
         let mut state = self.state.lock().unwrap();
         while !wait_guard.is_head() {
+            #[cfg(rescrv_blue_verif)]
+            crate::verif::sched(crate::verif::SchedEvent::Blocking(true));
             state = wait_guard.naked_wait(state);
+            #[cfg(rescrv_blue_verif)]
+            crate::verif::sched(crate::verif::SchedEvent::Blocking(false));
         }
         // We are the oldest write in flight, so everything up to seq_no is in the memtable.
         state.visible_seq_no = std::cmp::max(state.visible_seq_no, seq_no);
         drop(wait_guard);
         self.wait_list.notify_head();
+        #[cfg(rescrv_blue_verif)]
+        crate::verif::sched(crate::verif::SchedEvent::NotifiedHead);
         Ok(())
     }
 
@@ -455,6 +477,11 @@ impl KeyValueStore {
             self.cnd_memtable_rolled_over.notify_all();
         }
         self.tree.verif_wake_all();
+    }
+
+    /// The index at the head of the store's wait list (the oldest operation still in flight).
+    pub fn verif_wait_list_head(&self) -> u64 {
+        self.wait_list.verif_head()
     }
 
     /// Read-only access to the tree for observation.
